@@ -5,7 +5,6 @@ Import ListNotations.
 Open Scope Z_scope.
 
 (* text without backslash, line feed and the delimiting quote is its own value *)
-Definition plain_char (q c : Z) : bool := negb (c =? 92) && negb (c =? 10) && negb (c =? q).
 
 Lemma plain_char_spec q c : plain_char q c = true -> c <> 92 /\ c <> 10 /\ c <> q.
 Proof.
@@ -20,15 +19,15 @@ Proof.
   apply Z.eqb_neq in H1, H2, H3. rewrite H1, H2, H3, IH by assumption. reflexivity.
 Qed.
 
-Lemma pyun_no_backslash bad s : memz 92 s = false -> pyun bad PNorm s = Ok s.
+Lemma pyun_no_backslash nm bad s : memz 92 s = false -> pyun nm bad PNorm s = Ok s.
 Proof.
   induction s as [|c r IH]; cbn [memz existsb pyun]; intros H; [reflexivity|].
   apply orb_false_iff in H as [H1 H2]. rewrite Z.eqb_sym in H1. rewrite H1.
   unfold memz in IH. rewrite IH by assumption. reflexivity.
 Qed.
 
-Theorem decode_plain bad q raw :
-  forallb (plain_char q) raw = true -> decode_with bad q raw = Ok raw.
+Theorem decode_plain nm bad q raw :
+  forallb (plain_char q) raw = true -> decode_with nm bad q raw = Ok raw.
 Proof.
   intros H. unfold decode_with. rewrite scan_plain by assumption. cbn [rbind].
   apply pyun_no_backslash. induction raw as [|c r IH]; [reflexivity|].
@@ -51,7 +50,7 @@ Proof.
   cbn [app scan]. rewrite E92, E10, Eq, IH. reflexivity.
 Qed.
 
-Lemma pyun_py_quote bad q s : q = 34 \/ q = 39 -> pyun bad PNorm (py_quote q s) = Ok s.
+Lemma pyun_py_quote nm bad q s : q = 34 \/ q = 39 -> pyun nm bad PNorm (py_quote q s) = Ok s.
 Proof.
   intros Hq. induction s as [|c s IH]; [reflexivity|].
   unfold py_quote in *. cbn [flat_map]. unfold py_quote_char at 1.
@@ -65,7 +64,7 @@ Proof.
   cbn [app pyun]. rewrite E92, IH. reflexivity.
 Qed.
 
-Theorem decode_py_quote bad q s : q = 34 \/ q = 39 -> decode_with bad q (py_quote q s) = Ok s.
+Theorem decode_py_quote nm bad q s : q = 34 \/ q = 39 -> decode_with nm bad q (py_quote q s) = Ok s.
 Proof.
   intros Hq. unfold decode_with. rewrite scan_py_quote by assumption. cbn [rbind].
   now apply pyun_py_quote.
@@ -85,31 +84,33 @@ Proof.
       destruct (c =? q); [discriminate|]. apply rmap_not_crash, IH.
 Qed.
 
-Lemma pyun_not_crash st s : pyun Diag st s <> Crash.
+Lemma pyun_not_crash nm st s : pyun nm Diag st s <> Crash.
 Proof.
   revert st; induction s as [|c r IH]; intros st; cbn [pyun].
   - destruct st; discriminate.
-  - destruct st as [| |k acc|k acc].
+  - destruct st as [| |k acc|k acc| |acc].
     + destruct (c =? 92); [apply IH|apply rmap_not_crash, IH].
     + destruct (simple_escape c); [apply rmap_not_crash, IH|].
       destruct (is_oct c); [apply IH|]. destruct (c =? 120); [apply IH|].
       destruct (c =? 117); [apply IH|]. destruct (c =? 85); [apply IH|].
-      destruct (c =? 78); [discriminate|]. apply rmap_not_crash, IH.
+      destruct (c =? 78); [apply IH|]. apply rmap_not_crash, IH.
     + destruct (hexval c); [|discriminate]. destruct k as [|[|k]]; [discriminate| |apply IH].
       destruct (_ <=? _); [apply rmap_not_crash, IH|discriminate].
     + destruct (is_oct c).
       * destruct k as [|[|k]]; [discriminate|apply rmap_not_crash, IH|apply IH].
       * destruct (c =? 92); apply rmap_not_crash, IH.
+    + destruct (c =? 123); [apply IH|discriminate].
+    + destruct (c =? 125); [|apply IH]. destruct (nm (rev acc)); [apply rmap_not_crash, IH|discriminate].
 Qed.
 
-Theorem decode_not_crash q raw : decode q raw <> Crash.
+Theorem decode_not_crash nm q raw : decode nm q raw <> Crash.
 Proof.
   unfold decode, decode_with. pose proof (scan_not_crash q false raw) as H.
   destruct (scan q false raw); cbn [rbind]; try congruence. apply pyun_not_crash.
 Qed.
 
-Theorem decode_pinned_crashes : exists raw, decode_pinned 34 raw = Crash /\ decode 34 raw = Diag.
-Proof. exists (lit "\x"). split; reflexivity. Qed.
+Theorem decode_pinned_crashes : forall nm, exists raw, decode_pinned nm 34 raw = Crash /\ decode nm 34 raw = Diag.
+Proof. intros nm. exists (lit "\x"). split; reflexivity. Qed.
 
 (* ------------------------------------------------------------------ backtick strings *)
 Definition bt_plain_char (c : Z) : bool := negb (c =? 92) && negb (c =? 96).
@@ -180,11 +181,11 @@ Proof. auto. Qed.
 
 (* a backtick string: white space, line feed, the text (any number of lines), line feed, white
    space; text without backslash and backtick is taken as it is *)
-Theorem decode_bt_plain w1 mid w2 :
+Theorem decode_bt_plain nm w1 mid w2 :
   forallb py_space w1 = true -> memz 10 w1 = false ->
   forallb py_space w2 = true -> memz 10 w2 = false ->
   forallb bt_plain_char mid = true ->
-  decode_bt (w1 ++ 10 :: mid ++ 10 :: w2) = Ok mid.
+  decode_bt nm (w1 ++ 10 :: mid ++ 10 :: w2) = Ok mid.
 Proof.
   intros S1 L1 S2 L2 Hm. unfold decode_bt.
   assert (Hp : forallb bt_plain_char (w1 ++ 10 :: mid ++ 10 :: w2) = true).
@@ -205,8 +206,8 @@ Proof.
 Qed.
 
 Theorem decode_bt_pinned_drops_text :
-  exists raw, decode_bt_pinned raw = Ok (lit "world") /\ decode_bt raw = Diag.
-Proof. exists (32 :: lit "hello" ++ 10 :: lit "world" ++ 10 :: 32 :: lit "x"). split; reflexivity. Qed.
+  forall nm, exists raw, decode_bt_pinned nm raw = Ok (lit "world") /\ decode_bt nm raw = Diag.
+Proof. intros nm. exists (32 :: lit "hello" ++ 10 :: lit "world" ++ 10 :: 32 :: lit "x"). split; reflexivity. Qed.
 
 Lemma scan_bt_not_crash esc raw : scan_bt esc raw <> Crash.
 Proof.
@@ -224,11 +225,11 @@ Proof.
   destruct mid; [discriminate|]. destruct (_ && _); discriminate.
 Qed.
 
-Theorem decode_any_not_crash q raw : decode_any q raw <> Crash.
+Theorem decode_any_not_crash nm q raw : decode_any nm q raw <> Crash.
 Proof.
   unfold decode_any. destruct (q =? 96); [|apply decode_not_crash].
   unfold decode_bt. pose proof (scan_bt_not_crash false raw) as H.
   destruct (scan_bt false raw) as [body| | |]; cbn [rbind]; try congruence.
-  pose proof (pyun_not_crash PNorm body) as H2.
-  destruct (pyun Diag PNorm body); cbn [rbind]; try congruence. apply bt_lines_not_crash.
+  pose proof (pyun_not_crash nm PNorm body) as H2.
+  destruct (pyun nm Diag PNorm body); cbn [rbind]; try congruence. apply bt_lines_not_crash.
 Qed.
